@@ -556,23 +556,26 @@ def {}():
                     top._dag.all_constraints.add( (v, blk) )
 
             else:
-              if v in method_blks:
-                # TODO Now I'm leaving incomplete dependency chain because I didn't close the circuit loop.
-                # E.g. I do port.wr() somewhere in __main__ to write to a port.
+              # v may be called under the name of a method that is
+              # equivalent to it ( M(v) == M(vv) )
+              for vv in ( equiv[v] if v in equiv else ( v, ) ):
+                if vv in method_blks:
+                  # TODO Now I'm leaving incomplete dependency chain because I didn't close the circuit loop.
+                  # E.g. I do port.wr() somewhere in __main__ to write to a port.
 
-                # Find total constraint (vb < blk) by vb=method_v < method_u=blk
-                # INVALID if we have explicit constraint (blk < method_v) or (method_u < vb)
+                  # Find total constraint (vb < blk) by vb=method_v < method_u=blk
+                  # INVALID if we have explicit constraint (blk < method_v) or (method_u < vb)
 
-                v_blks = method_blks[ v ]
-                for vb in v_blks:
-                  if vb not in succ[u]:
-                    for blk in assoc_blks:
-                      if blk not in pred[v]:
-                        if vb != blk:
-                          if verbose: print("w<=0, v is method".center(10),v, blk)
-                          if verbose: print(vb.__name__.center(25)," < ", \
-                                      blk.__name__.center(25))
-                          top._dag.all_constraints.add( (vb, blk) )
+                  v_blks = method_blks[ vv ]
+                  for vb in v_blks:
+                    if vb not in succ[u]:
+                      for blk in assoc_blks:
+                        if blk not in pred[v] and blk not in pred[vv]:
+                          if vb != blk:
+                            if verbose: print("w<=0, v is method".center(10),v, blk)
+                            if verbose: print(vb.__name__.center(25)," < ", \
+                                        blk.__name__.center(25))
+                            top._dag.all_constraints.add( (vb, blk) )
 
               if (v, -1) not in visited:
                 visited.add( (v, -1) )
@@ -594,24 +597,25 @@ def {}():
                     top._dag.all_constraints.add( (blk, v) )
 
             else:
-              if v in method_blks:
-                # assert v in method_blks, "Incomplete elaboration, something is wrong! %s" % hex(v)
-                # TODO Now I'm leaving incomplete dependency chain because I didn't close the circuit loop.
-                # E.g. I do port.wr() somewhere in __main__ to write to a port.
+              for vv in ( equiv[v] if v in equiv else ( v, ) ):
+                if vv in method_blks:
+                  # assert v in method_blks, "Incomplete elaboration, something is wrong! %s" % hex(v)
+                  # TODO Now I'm leaving incomplete dependency chain because I didn't close the circuit loop.
+                  # E.g. I do port.wr() somewhere in __main__ to write to a port.
 
-                # Find total constraint (blk < vb) by blk=method_u < method_v=vb
-                # INVALID if we have explicit constraint (vb < method_u) or (method_v < blk)
+                  # Find total constraint (blk < vb) by blk=method_u < method_v=vb
+                  # INVALID if we have explicit constraint (vb < method_u) or (method_v < blk)
 
-                v_blks = method_blks[ v ]
-                for vb in v_blks:
-                  if not vb in pred[u]:
-                    for blk in assoc_blks:
-                      if not blk in succ[v]:
-                        if vb != blk:
-                          if verbose: print("w>=0, v is method".center(10), blk, v)
-                          if verbose: print(blk.__name__.center(25)," < ", \
-                                            vb.__name__.center(25))
-                          top._dag.all_constraints.add( (blk, vb) )
+                  v_blks = method_blks[ vv ]
+                  for vb in v_blks:
+                    if not vb in pred[u]:
+                      for blk in assoc_blks:
+                        if not blk in succ[v] and not blk in succ[vv]:
+                          if vb != blk:
+                            if verbose: print("w>=0, v is method".center(10), blk, v)
+                            if verbose: print(blk.__name__.center(25)," < ", \
+                                              vb.__name__.center(25))
+                            top._dag.all_constraints.add( (blk, vb) )
 
               if (v, 1) not in visited:
                 visited.add( (v, 1) )
